@@ -606,6 +606,9 @@ class SymBool(Sym):
     def __index__(self):
         return int(bool(self))
 
+    def __int__(self):
+        return int(bool(self))
+
 
 bool_class_proxy = bool  # isinstance(symbool, bool) -> True via __class__
 
@@ -622,6 +625,9 @@ class SymInt(Sym):
 
     def __index__(self):
         return ctx().concretize_int(self.e)
+
+    def __int__(self):
+        return ctx().concretize_int(self.e)      # fork over the feasible values
 
     def __bool__(self):
         return ctx().branch(self.e != 0)
